@@ -41,6 +41,36 @@ CLAIMED = {
             "Trusted: as C01; the key tables and tuple order are regenerated from calculate_specificity each run; the text scanner computing the key (str.count, substring test, quoted-string regexes; ASCII lower-casing) "
             "is a hand model compared with calculate_specificity on every generated rule.",
             "DESIGN.md §5 C09"),
+    'C05': ("Lean 4 theorems over a model of parse_amount / parse_generic_csv on tokenised rows (float() and strptime as oracle parameters) + differential correspondence on generated tables",
+            "Proof: parseFile_filterMap (one transaction per accepted row, in order; + parseFile_fatal), parseFile_append, bad_row_neutral, order_preserved, one_per_row, accept_iff "
+            "(enough columns ∧ date matches ∧ description ≠ '' ∧ amount parses, finite, ≠ 0), sign_modes, fidelity*, template_filled, amount_roundtrip_us/eu (every integer number of cents × every "
+            "rendering style parses back exactly), for every table, config and oracle.",
+            "Trusted: Lean kernel; csv.reader / regex tokenisation and header skipping are taken from the implementation (rows after tokenisation feed the model; checked by the row-wise oracle only); "
+            "float(), strptime, str.format beyond {name}; classification is out of scope here (rules=[]). Genuine defect D5 (nan/inf cells accepted) repaired by a fix: commit; "
+            "d5_unrepaired_accepts_nan is the kernel-checked counterexample on the unrepaired model.",
+            "DESIGN.md §5 C05, notes/C05_notes.md"),
+    'C12': ("Lean 4 theorems about JSON string encoding, script-data embedding, merchant ids, placeholder substitution and category sums + render-all-formats oracle and nine correspondence streams",
+            "Proof: json_string_roundtrip (every string survives dumps→loads), encode_ascii_only, embed_safe (no text can end the data <script>), embed_decodes, replace_verbatim / placeholder_order, "
+            "category_view_sums, merchant_id_injective_partial; kernel-checked counterexamples for the code before each repair (embed_unsafe_unrepaired, merchant_id_not_injective, "
+            "placeholder_order_unrepaired_rescans, category_view_loses_merchant, json_summary_disagrees). 'Renders without error' and 'all formats report the same figures' are decided by the "
+            "implementation oracle over generated analyses × 4 formats × verbosity, HTML parsed back with html.parser + json.",
+            "PARTIAL: the round-trip theorem covers strings, not whole JSON documents; figure agreement across text/markdown/HTML and uniqueness of the repaired id scheme are oracle-checked, not proved; "
+            "browsers/Vue are out of scope; lone surrogates are exercised on the implementation only. Defects D12a–f repaired by fix: commits. A further observation (view ids colliding for "
+            "'[My View]'/'[my_view]') is recorded in DESIGN.md, outside the generator.",
+            "DESIGN.md §5 C12, notes/C12_notes.md"),
+    'C17': ("Lean 4 theorems over line-by-line models of MerchantEngine.parse/_add_rule and section_engine.parse_sections (expression validity as a parameter) + parser correspondence, metamorphic edits, single-point corruptions, CLI oracle",
+            "Proof (all files, all validity oracles): insert_comment_blank_neutral(_views/_ok), strip_eq_neutral, trailing_ws_neutral, crlf_neutral, indent_property_neutral(_views), indented_header_ok, "
+            "key_case_neutral, permute_distinct_properties_neutral, sections_to_rules_partial / sections_to_views_partial, rejects_unknown_property / bad_let / bad_field / bad_priority / unexpected_content / "
+            "missing_match / invalid_expr (+ views versions, rejects_missing_filter) with the reported line.",
+            "PARTIAL: 'exactly the stated properties' per section and the command-level clause (a rules file that cannot be loaded is reported) are decided by the implementation oracle "
+            "(python -m tally up on a corrupt budget), not by a theorem; no views version of the permutation theorem; int() for ASCII digits only. Defect D17 repaired by a fix: commit.",
+            "DESIGN.md §5 C17, notes/C17_notes.md"),
+    'C18': ("Lean 4 theorems over a step-by-step model of parse_format_string, auto_detect_csv_format and inspect's suggestion (keyword tables regenerated from source) + exhaustive arrangement correspondence",
+            "Proof: parse_render (every well-formed arrangement of any width in every spelling of the class SpOK parses to exactly its positions, date format and sign mode), parse_positions (converse, "
+            "arbitrary strings), rejects_missing_required / duplicate / uncaptured_template_ref / custom_without_template / invalid_token, suggest_roundtrip, inspect_roundtrip, detect_columns_distinct.",
+            "Trusted: Lean kernel; fmt_tables translator; CPython's non-ASCII isspace/\\w/lower are a parameter Ext of every theorem; str.split and re.match are hand models tied by correspondence "
+            "(all arrangements ≤ 5 wide quick / ≤ 7 thorough × spellings, malformed strings, header rows); inspect's fixed-width path and csv.Sniffer are outside the model.",
+            "DESIGN.md §5 C18, notes/C18_notes.md"),
 }
 
 PENDING_REASON = "not claimed yet: model/theorems for this property are still being built (see DESIGN.md §7 build order); no check is registered until it is sound"
